@@ -8,8 +8,10 @@
 //!     ASCII, non-ASCII, space), pushed through
 //!       (a) `decode` / `decode_hex`,
 //!       (b) `Decoder::push` char by char, CONTINUING AFTER ERRORS (the docs
-//!           say "It is okay to push more data after the first error"), then
-//!           `finalize`,
+//!           say "It is okay to push more data after the first error. The
+//!           method will just keep returning errors."), then `finalize`:
+//!           no panic, and once a push failed every later push and
+//!           `finalize` must fail too (error-not-kept otherwise),
 //!       (c) `SymbolConverter`, for every split of the string into <= 3
 //!           tokens driven directly through `ConvertSymbols` (with
 //!           `EndOfToken` markers like the zonefile scanner does), and for
@@ -18,7 +20,10 @@
 //!   * an alphabet sweep: every pair of characters from U+0000..U+017F plus
 //!     a few look-alikes, and every such character at every position of a
 //!     full group (checks the whole decode table and the ASCII-only rule);
-//!   * every octet string of the stated encode space through `display`,
+//!   * the encode space - all strings over {00,01,7F,80,FF} to length 5/7,
+//!     ALL 1-, 2- (thorough: 3-) octet strings, every length 0..=200 with
+//!     three fill patterns, and the lengths around multiples of 64 (63..65,
+//!     127..129, 191..193, 255..257) with eight patterns - through `display`,
 //!     `encode_string`, `encode_display`, then back through (a), (b), (c);
 //!   * (extension) the same decode entry points into a 2-octet bounded
 //!     buffer (`octseq::Array<2>`).
